@@ -632,3 +632,75 @@ func RelockDuringSlowRenewal(L time.Duration, k int) (out Outcome) {
 	la.Unlock()
 	return out
 }
+
+// deadStore refuses everything once dead (a holder process that died).
+type deadStore struct {
+	kvs.Storage
+	dead atomic.Bool
+}
+
+func (d *deadStore) Create(ctx context.Context, r kvs.Record) (string, error) {
+	if d.dead.Load() {
+		return "", ErrInjected
+	}
+	return d.Storage.Create(ctx, r)
+}
+func (d *deadStore) CasByVersion(ctx context.Context, r kvs.Record) (kvs.Record, error) {
+	if d.dead.Load() {
+		return kvs.Record{}, ErrInjected
+	}
+	return d.Storage.CasByVersion(ctx, r)
+}
+func (d *deadStore) Delete(ctx context.Context, k string) error {
+	if d.dead.Load() {
+		return ErrInjected
+	}
+	return d.Storage.Delete(ctx, k)
+}
+
+// StaleRenewalFailsAfterForeignHolderDied: A's k-th renewal request is on its way (not executed yet) when A unlocks;
+// B (another provider) acquires and then dies (its storage access ends, it never unlocks); the same Locker of A is
+// asked for the lock again and waits; then A's old renewal request fails transiently (lost). Whatever A's renewal
+// routine does with that error, B's record must run out about one lease after B's last renewal and A must get
+// the lock: A's LockWithCtx (context of 4 leases + 3 s) must return nil.
+func StaleRenewalFailsAfterForeignHolderDied(L time.Duration, k int) (out Outcome) {
+	stop := canary()
+	defer func() { out.Stall = stop() }()
+	inner := inmem.New()
+	tA := New(inner)
+	dB := &deadStore{Storage: inner}
+	pa := dist.NewKvsLockProvider(tA, "/lt/")
+	pb := dist.NewKvsLockProvider(dB, "/lt/")
+	for _, p := range []dist.LockProvider{pa, pb} {
+		dist.VerifSetLeaseTTL(p, L)
+		defer p.Shutdown()
+	}
+	g := tA.Gate(fmt.Sprintf("Cas#%d:before", k))
+	g.Fail = true
+	la, lb := pa.NewLocker("x"), pb.NewLocker("x")
+	la.Lock()
+	if !Arrived(g, time.Duration(k+2)*L+10*time.Second) {
+		close(g.Release)
+		la.Unlock()
+		return Outcome{Skipped: "renewal did not come"}
+	}
+	la.Unlock()
+	lb.Lock()
+	dB.dead.Store(true) // B dies holding the lock
+	died := time.Now()
+	ctx, cancel := context.WithTimeout(context.Background(), 4*L+3*time.Second)
+	defer cancel()
+	got := make(chan error, 1)
+	go func() { got <- la.LockWithCtx(ctx) }()
+	time.Sleep(L / 10)
+	close(g.Release) // A's old renewal request is lost now (transient error)
+	err := <-got
+	if err != nil {
+		out.Sig = "take-over-missing-after-stale-renewal-failed"
+		out.What = fmt.Sprintf("lease %v: A's renewal %d was lost (transient error) after A had unlocked, B had acquired and died, and A's Locker was waiting for the lock again; %v after B's death A still has not got the lock (LockWithCtx: %v; record in the store: %v); storage calls of A: %v", L, k, time.Since(died).Round(time.Millisecond), err, func() bool { _, e := inner.Get(context.Background(), "/lt/x"); return e == nil }(), tA.Events())
+		out.TimeBound = true
+		return out
+	}
+	la.Unlock()
+	return out
+}
